@@ -80,6 +80,10 @@ def fault_ops(cfg, model):
             out.append(("add", t, 0, 0))                          # table full
             if t in kdriver.SETTERS:
                 out.append(("set", t, 0))                         # setter on a full table
+        if present and len(model.live[t].comment) > 255:          # foreign entry whose comment has no terminator
+            out.append(("replace", t, 0, 0))                      # would inherit a comment that cannot be written
+            if t in kdriver.SETTERS:
+                out.append(("set", t, 0))
         if not present:
             out.append(("remove", t, "type"))                     # absent kind
             out.append(("replace", t, 0, 0))
@@ -354,7 +358,11 @@ def small_configs(tier):
         out.append(K.Config("N3-T3-c", 3, [K.opaque_record(0)], tr[2], 1, junk=True, removable=()))
         out.append(K.Config("N3-T3-d", 3, [], (R.T_EVENTS, R.T_EMG, R.T_OPT), 1, depth=2))
         out.append(K.Config("N14-new", 14, "new", (R.T_DATA3D, R.T_FORCE3D), 1, depth=2))
+        out.append(K.Config("N3-unterminated", 3, [K.known_record(R.T_EVENTS, 0, unterminated=True), K.opaque_record(2)],
+                            (R.T_EVENTS, R.T_EMG), 1, depth=1))
     else:
+        out.append(K.Config("N3-unterminated", 3, [K.known_record(R.T_EVENTS, 0, unterminated=True), K.opaque_record(2)],
+                            (R.T_EVENTS, R.T_EMG, R.T_PLATDATA), 1, depth=2))
         for i, t3 in enumerate(tr):
             out.append(K.Config(f"N2-T3-{i}", 2, [], t3, 2))
             out.append(K.Config(f"N3-T3-{i}", 3, [K.opaque_record(i)], t3, 1, junk=True, removable=()))
